@@ -376,6 +376,8 @@ func (w *World) opImportPriv() *Op {
 		return nil
 	}
 	e := &Addr{A: addr, Str: addr.String(), Scope: s, Acct: waddrmgr.ImportedAddrAccount, Kind: "imppriv", Pub: p33[:], Priv: kb, Type: t}
+	w.secret("imported-key "+e.Str, kb)
+	w.secret("imported-wif "+e.Str, []byte(wif.String()))
 	op := &Op{Kind: "importpriv", Mutates: true, Name: fmt.Sprintf("importpriv %v -> %s", s, e.Str)}
 	switch {
 	case w.M.IsLocked() && !w.WatchOnly:
@@ -478,6 +480,9 @@ func (w *World) opImportScript(kind string) *Op {
 	}
 	e := &Addr{A: addr, Str: addr.String(), Scope: s, Acct: waddrmgr.ImportedAddrAccount, Kind: kind, Script: script, Secret: secret, Type: t}
 	op := &Op{Kind: "import" + kind, Mutates: true, Name: fmt.Sprintf("import %s %v secret=%v -> %s", kind, s, secret, e.Str)}
+	if secret {
+		w.secret("imported-script "+e.Str, script)
+	}
 	if secret {
 		switch {
 		case w.M.IsLocked() && !w.WatchOnly:
